@@ -9,7 +9,9 @@ from . import c02
 
 ID = 'C03'
 LEVEL = 'model_checking'
-RULE = ('explicit-state BFS of the real pastified online monitor per bounded-future formula (<=2 operators over past, future, '
+RULE = ('[sibling family: every Boolean connective over one operand without future (atom, not, prev, s_prev, rise, fall, once, historically, since) and one '
+        'bounded-future operand (next, s_next, eventually, always, until), both orders - the shape in which pastify() delays a past operand] ' +
+        'explicit-state BFS of the real pastified online monitor per bounded-future formula (<=2 operators over past, future, '
         'Boolean operators, 3-chains, unit-spelled bounds, unary minus/ln/log atoms); one transition = one real update(); '
         'invariant: for i >= h the i-th update() returns reference rho(phi, w[0..i], i-h) with h the reference horizon '
         '(next = 1); for future-free formulas (any unit spelling) pastified monitor = reference at delay 0; '
@@ -119,6 +121,11 @@ def shards(tier):
     out += [{'formulas': [F.to_json(f)], 'deep': True} for f in ds]
     ls = long_set(tier)
     out += [{'formulas': [F.to_json(f) for f in ls[i:i + 2]], 'long': True} for i in range(0, len(ls), 2)]
+    lu = long_unit_cases(tier)
+    out += [{'long_units': [(F.to_json(f), st) for f, st in lu[i:i + 2]]} for i in range(0, len(lu), 2)]
+    sib = F.sibling_formulas()
+    sib = sib[::3] if tier == 'quick' else sib
+    out += [{'formulas': [F.to_json(f) for f in sib[i:i + 10]], 'sibling': True} for i in range(0, len(sib), 10)]
     return out
 
 
@@ -198,6 +205,8 @@ def run_shard(shard, tier, res):
             continue
         if shard.get('deep'):
             p = deep_params(f, tier)
+        if shard.get('sibling'):
+            p = dict(values=(F.V3, F.V2), maxdepth=6 if tier == 'quick' else 8, max_transitions=250 if tier == 'quick' else 3000, validate='first')
         m = model_for(f, p['values'])
         st, m = c02.explore_formula(res, mod, f, p, model=m)
         res.sample({'spec': m.text, 'horizon': m.delay, 'states': st.states, 'transitions': st.transitions,
